@@ -31,6 +31,10 @@ type KV struct {
 }
 type Dict []KV
 
+// Raw is spelled verbatim (used by fault injection for tokens no well-formed
+// writer would produce, e.g. a 400-digit integer).
+type Raw string
+
 // Stream is a stream object. Plain is the data before encoding; Raw what is stored.
 type Stream struct {
 	Dict    Dict // without /Length, /Filter, /DecodeParms (added when serialised)
@@ -142,6 +146,8 @@ func (s *ser) obj(o Obj) {
 		s.b.WriteString(fmtReal(float64(v)))
 	case Name:
 		s.name(string(v))
+	case Raw:
+		s.b.WriteString(string(v))
 	case Str:
 		s.str(v)
 	case Ref:
